@@ -1,6 +1,7 @@
 package pcv
 
 import (
+	"strings"
 	"fmt"
 	"go/types"
 
@@ -168,6 +169,35 @@ func runC03(c *Ctx) {
 	for _, f := range p.FuncsOfPkg("app") {
 		if !s.IsRunnerMethod(f) || !p.reachedFrom(f, shut) {
 			continue
+		}
+		// an iteration that stops instances is never abandoned: a failing stop of one instance must not leave the
+		// remaining ones running (separate from what happens to the failing instance itself)
+		for _, lp := range NaturalLoops(f) {
+			hasStop := false
+			for b := range lp.Blocks {
+				for _, in := range b.Instrs {
+					if call, ok := in.(*ssa.Call); ok && stopDeep.MayAt(call) {
+						if sc := call.Call.StaticCallee(); sc != nil && s.IsProcessMethod(sc) {
+							hasStop = true
+						}
+					}
+				}
+			}
+			if !hasStop {
+				continue
+			}
+			var ex []string
+			for b := range lp.Blocks {
+				if b == lp.Header {
+					continue
+				}
+				for _, sc := range b.Succs {
+					if !lp.Blocks[sc] {
+						ex = append(ex, posOfBlock(p, b))
+					}
+				}
+			}
+			c.Check(len(ex) == 0, rAwait, "stop-loop-exhaustive:"+p.FuncKey(f), FirstPos(p, f), "every instance of the list is stopped", "the loop that stops the instances is left early ("+strings.Join(ex, ", ")+"), e.g. when one stop fails: the remaining instances are neither stopped nor awaited and survive the shutdown")
 		}
 		loops := RangeLoops(f)
 		for _, in := range FindInstrs(f, func(in ssa.Instruction) bool {
